@@ -90,6 +90,45 @@ func malformedTests(src *hx.Src, fd *ast.FuncDecl) []string {
 	return out
 }
 
+// decodeSteps lists, in source order, every loop header, every call that decodes a rune (utf8.DecodeRune*, NextRune),
+// every assignment that re-slices a string variable (x = x[..]) and every slice expression with an upper bound
+// (x[:n], x[a:b] — a window of the input) of the function.
+func decodeSteps(src *hx.Src, fd *ast.FuncDecl) []string {
+	var out []string
+	ast.Inspect(fd.Body, func(n ast.Node) bool {
+		switch x := n.(type) {
+		case *ast.ForStmt:
+			c := ""
+			if x.Cond != nil {
+				c = src.Text(x.Cond)
+			}
+			out = append(out, "for "+c)
+		case *ast.RangeStmt:
+			out = append(out, "range "+src.Text(x.X))
+		case *ast.CallExpr:
+			t := src.Text(x.Fun)
+			if strings.Contains(t, "DecodeRune") || strings.Contains(t, "NextRune") || strings.Contains(t, "DecodeLastRune") {
+				out = append(out, "decode "+src.Text(x))
+			}
+		case *ast.AssignStmt:
+			if len(x.Lhs) == 1 && len(x.Rhs) == 1 {
+				if se, ok := x.Rhs[0].(*ast.SliceExpr); ok {
+					if _, isId := x.Lhs[0].(*ast.Ident); isId {
+						out = append(out, "slice "+src.Text(x.Lhs[0])+" = "+src.Text(se))
+						return true
+					}
+				}
+			}
+		case *ast.SliceExpr:
+			if x.High != nil {
+				out = append(out, "window "+src.Text(x))
+			}
+		}
+		return true
+	})
+	return out
+}
+
 func leanStrings(xs []string) string {
 	q := make([]string, len(xs))
 	for i, s := range xs {
@@ -163,6 +202,11 @@ func extract(a hx.ExtractArgs) error {
 		return true
 	})
 	fmt.Fprintf(&b, "def weightByteWrites : List String := %s\n", leanStrings(shifts))
+	// what the decoder is applied to and how the loops advance: the model decodes the *whole remaining string* at every
+	// step (no windows / chunks / cut-off), so the argument of every DecodeRune call, every re-slicing assignment and the
+	// number of loops are pinned
+	fmt.Fprintf(&b, "def weightDecodeSteps : List String := %s\n", leanStrings(decodeSteps(s2, wFn)))
+	fmt.Fprintf(&b, "def compareDecodeSteps : List String := %s\n", leanStrings(decodeSteps(s1, cmpFn)))
 	fmt.Fprintf(&b, "def weightBinaryCase : String := %s\n\n", hx.LeanString(binCase))
 
 	// LIKE: the malformed-input tests of ConstructLikeMatcher / Match and the "negative sort order matches anything" test
@@ -331,6 +375,7 @@ func run(a hx.RunArgs) error {
 	defer out.Close()
 	out.Rule = "per collation: (sweep) every code point of the chosen range as a one-rune string: weight string and comparison with the previous rune, digested, the weights travel with the case; " +
 		"(cmp/ws/like) corpus + random strings of 0-6 units over a per-collation alphabet that contains runes with colliding weights, case pairs, runes outside the repertoire and ill-formed bytes; " +
+		"(long) strings around every size 16..4096 (powers of two and small multiples) in which a 2-, 3- or 4-byte character straddles that byte offset at every phase and which differ only in that character (other weight / same weight), random strings of 60-320 runes that differ in one rune: as law triples, weight strings and through SQL, incl. (sqlhash) the hash-based operators over the three stored rows: WHERE a IN (literal list) and the number of GROUP BY groups; " +
 		"(sqlcmp) the same pairs through =, <, >, LIKE, IN on collated columns. Oracle on the real code: preorder laws on triples, Compare = 0 <=> equal weight strings <=> equal hashes, case folding for case-insensitive collations, code-point order for binary ones. " +
 		"A case is non-trivial when the two strings differ as byte strings (sweep: the block is not ASCII)."
 	r := hx.NewRand(a.Seed)
@@ -600,24 +645,31 @@ func run(a hx.RunArgs) error {
 		if !ok1 || !ok2 || k.bin || k.c.CharacterSet.Name() != "utf8mb4" {
 			return
 		}
-		if _, ok := tblMade[k.name]; !ok {
-			r := e.Query(e.Ctx(), fmt.Sprintf("CREATE TABLE t_%s (id INT PRIMARY KEY, a VARCHAR(64) COLLATE %s, b VARCHAR(64) COLLATE %s)", k.name, k.name, k.name))
+		// values of more than 64 characters live in a second table with wider columns (the payload does not name the
+		// table: the operators do not depend on the declared length)
+		tname, width := "t_"+k.name, 64
+		if utf8.RuneCount(x) > 64 || utf8.RuneCount(y) > 64 {
+			tname, width = "tl_"+k.name, 1200
+			out.Stat("sqlcmp:long")
+		}
+		if _, ok := tblMade[tname]; !ok {
+			r := e.Query(e.Ctx(), fmt.Sprintf("CREATE TABLE %s (id INT PRIMARY KEY, a VARCHAR(%d) COLLATE %s, b VARCHAR(%d) COLLATE %s)", tname, width, k.name, width, k.name))
 			if r.Err != nil || r.Panic != "" {
-				tblMade[k.name] = -1
+				tblMade[tname] = -1
 			} else {
-				tblMade[k.name] = 0
+				tblMade[tname] = 0
 			}
 		}
-		if tblMade[k.name] < 0 {
+		if tblMade[tname] < 0 {
 			return
 		}
-		tblMade[k.name]++
-		id := tblMade[k.name]
-		ins := e.Query(e.Ctx(), fmt.Sprintf("INSERT INTO t_%s VALUES (%d, %s, %s)", k.name, id, lx, ly))
+		tblMade[tname]++
+		id := tblMade[tname]
+		ins := e.Query(e.Ctx(), fmt.Sprintf("INSERT INTO %s VALUES (%d, %s, %s)", tname, id, lx, ly))
 		if ins.Err != nil || ins.Panic != "" {
 			return
 		}
-		q := fmt.Sprintf("SELECT a = b, a < b, a > b, a LIKE b, a IN (b, b), a IN (%s, '\x01'), a <=> b, STRCMP(a, b) FROM t_%s WHERE id = %d", ly, k.name, id)
+		q := fmt.Sprintf("SELECT a = b, a < b, a > b, a LIKE b, a IN (b, b), a IN (%s, '\x01'), a <=> b, STRCMP(a, b) FROM %s WHERE id = %d", ly, tname, id)
 		res := e.Query(e.Ctx(), q)
 		obs := eng.Canon(res, true)
 		if res.Class() == "ok" && len(res.Rows) == 1 {
@@ -625,7 +677,7 @@ func run(a hx.RunArgs) error {
 		}
 		cid := out.Case(hx.List("sqlcmp", k.name, hx.Hex(x), hx.Hex(y), k.assoc(x, y)), obs, !bytes.Equal(x, y))
 		out.Stat("sqlcmp")
-		e.Query(e.Ctx(), fmt.Sprintf("DELETE FROM t_%s WHERE id = %d", k.name, id))
+		e.Query(e.Ctx(), fmt.Sprintf("DELETE FROM %s WHERE id = %d", tname, id))
 		if res.Panic != "" {
 			out.OracleFail(cid, "-", fmt.Sprintf("%s panics: %s", q, res.Panic))
 		}
@@ -645,6 +697,65 @@ func run(a hx.RunArgs) error {
 					break
 				}
 			}
+		}
+	}
+
+	// the hash-based operators over stored rows: `a IN (<y>, 'other', 'another')` in a WHERE clause (HashInTuple) and
+	// GROUP BY a (grouping-key hash) over the three rows x, y, z. Observation: "<rows matched by IN>,<groups>".
+	sqlHashCase := func(k coll, x, y, z []byte) {
+		lx, ok1 := lit(x)
+		ly, ok2 := lit(y)
+		lz, ok3 := lit(z)
+		if !ok1 || !ok2 || !ok3 || k.bin || k.c.CharacterSet.Name() != "utf8mb4" {
+			return
+		}
+		tname := "th_" + k.name
+		if _, ok := tblMade[tname]; !ok {
+			r := e.Query(e.Ctx(), fmt.Sprintf("CREATE TABLE %s (id INT PRIMARY KEY, a VARCHAR(1200) COLLATE %s)", tname, k.name))
+			tblMade[tname] = 0
+			if r.Err != nil || r.Panic != "" {
+				tblMade[tname] = -1
+			}
+		}
+		if tblMade[tname] < 0 {
+			return
+		}
+		defer e.Query(e.Ctx(), "DELETE FROM "+tname)
+		ins := e.Query(e.Ctx(), fmt.Sprintf("INSERT INTO %s VALUES (1, %s), (2, %s), (3, %s)", tname, lx, ly, lz))
+		if ins.Err != nil || ins.Panic != "" {
+			return
+		}
+		q1 := fmt.Sprintf("SELECT COUNT(*) FROM %s WHERE a IN (%s, 'other', 'another')", tname, ly)
+		q2 := fmt.Sprintf("SELECT COUNT(*) FROM (SELECT a, COUNT(*) FROM %s GROUP BY a) q", tname)
+		r1, r2 := e.Query(e.Ctx(), q1), e.Query(e.Ctx(), q2)
+		one := func(r *eng.Res) string {
+			if r.Class() == "ok" && len(r.Rows) == 1 && len(r.Rows[0]) == 1 {
+				return r.Rows[0][0]
+			}
+			return r.Class()
+		}
+		obs := one(r1) + "," + one(r2)
+		cid := out.Case(hx.List("sqlhash", k.name, hx.Hex(x), hx.Hex(y), hx.Hex(z), k.assoc(x, y, z)), obs, !bytes.Equal(x, y))
+		out.Stat("sqlhash")
+		if r1.Panic != "" || r2.Panic != "" {
+			out.OracleFail(cid, "-", fmt.Sprintf("%s / %s panics: %s %s", q1, q2, r1.Panic, r2.Panic))
+		}
+		// oracle on the real code: GROUP BY yields as many groups as Compare has classes among the rows
+		rows := [][]byte{x, y, z}
+		classes := 0
+		for i := range rows {
+			fresh := true
+			for j := 0; j < i; j++ {
+				if k.compare(rows[i], rows[j]) == "0" {
+					fresh = false
+				}
+			}
+			if fresh {
+				classes++
+			}
+		}
+		if g := one(r2); g != fmt.Sprint(classes) {
+			out.OracleFail(cid, "-", fmt.Sprintf("%s under %s: %s groups, Compare finds %d classes among the 3 rows", q2, k.name, g, classes))
 		}
 	}
 
@@ -758,6 +869,179 @@ func run(a hx.RunArgs) error {
 		return s
 	}
 
+	// --- long strings ------------------------------------------------------------------------
+	// Anything that processes the string in pieces (fixed-size chunks or windows, pooled buffers of a bounded size,
+	// a length cut-off, a fast path for short inputs) behaves like the whole-string loop on short inputs. The `long`
+	// stream builds strings around every power-of-two size 16..4096 (and its small multiples) in which a multi-byte
+	// character of width 2, 3 and 4 straddles the byte offset m*C at every possible phase, and compares strings that
+	// differ only in that character (different weight: must differ; same weight: must stay equal), as triples under
+	// the law oracle, as weight strings and through the SQL operators.
+	wideCands := map[int][]rune{
+		2: {0xE9, 0xF1, 0xC9, 0xE8, 0x3B1, 0x391, 0x430, 0x410, 0x5D0, 0x131},
+		3: {0x4E2D, 0x3042, 0x30A2, 0xFF21, 0xFF41, 0x1E9E, 0x2028, 0x4E2E, 0xFFFD},
+		4: {0x1F600, 0x10400, 0x10428, 0x1F601, 0x20000},
+	}
+	// filler of exactly n bytes: runes of the alphabet (all widths), padded with ASCII letters
+	filler := func(k coll, n int, asciiOnly bool) []byte {
+		al := alphabets[k.name]
+		var s []byte
+		for len(s) < n {
+			c := rune('a' + r.Intn(26))
+			if !asciiOnly && r.Chance(1, 3) {
+				c = hx.Pick(r, al.runes)
+			}
+			if c == 0 || c == '\'' || c == '\\' || c == '%' || c == '_' || c < 0x20 || c == 0x7f {
+				c = 'q'
+			}
+			if len(s)+utf8.RuneLen(c) > n {
+				c = rune('a' + r.Intn(26))
+			}
+			s = utf8.AppendRune(s, c)
+		}
+		return s
+	}
+	cat := func(parts ...[]byte) []byte {
+		var s []byte
+		for _, p := range parts {
+			s = append(s, p...)
+		}
+		return s
+	}
+	// straddle: one triple whose middle character (width wd) starts `phase` bytes before byte offset `at`
+	straddle := func(k coll, at, wd, phase int, withSQL bool) {
+		cands := wideCands[wd]
+		c1 := cands[r.Intn(len(cands))]
+		c2, c3 := rune(-1), rune(-1) // different weight / same weight as c1
+		for _, c := range cands {
+			if c == c1 {
+				continue
+			}
+			if k.c.Sorter(c) != k.c.Sorter(c1) && c2 < 0 {
+				c2 = c
+			}
+			if k.c.Sorter(c) == k.c.Sorter(c1) && c3 < 0 {
+				c3 = c
+			}
+		}
+		if c2 < 0 {
+			c2 = 'z' // the character set has one weight for all of them: compare with a one-byte character instead
+		}
+		pre := filler(k, at-phase, r.Chance(1, 2))
+		suf := filler(k, r.Intn(6), false)
+		x := cat(pre, utf8.AppendRune(nil, c1), suf)
+		y := cat(pre, utf8.AppendRune(nil, c2), suf)
+		z := x
+		if c3 >= 0 {
+			z = cat(pre, utf8.AppendRune(nil, c3), suf)
+		}
+		out.Stat("long:straddle")
+		out.Stat(fmt.Sprintf("long:straddle:width=%d", wd))
+		lawCase(k, x, y, z)
+		if c3 >= 0 {
+			lawCase(k, x, z, y)
+		}
+		if r.Chance(1, 3) {
+			wsCase(k, x)
+		}
+		if withSQL && at <= 1024 {
+			sqlHashCase(k, x, y, z)
+			sqlCase(k, x, y)
+			if c3 >= 0 {
+				sqlCase(k, x, z)
+			}
+		}
+	}
+	type strad struct{ at, wd, phase int }
+	var stradAll []strad
+	for _, C := range []int{16, 32, 64, 128, 256, 512, 1024, 2048, 4096} {
+		for _, m := range []int{1, 2, 3} {
+			if C*m > 4096 || (m == 3 && C > 256) {
+				continue
+			}
+			for wd := 2; wd <= 4; wd++ {
+				for ph := 1; ph < wd; ph++ {
+					stradAll = append(stradAll, strad{C * m, wd, ph})
+				}
+			}
+		}
+	}
+	longCases := func(k coll, full bool) {
+		if k.bin {
+			// raw bytes: long strings that differ in one byte at / around the offsets
+			for _, at := range []int{16, 64, 128, 256, 1024, 2048} { // the VARBINARY(4000) type of the harness rejects longer values
+				pre := filler(k, at-1, true)
+				x, y := cat(pre, []byte{0xc3, 0xa9, 'z'}), cat(pre, []byte{0xc3, 0xb1, 'z'})
+				lawCase(k, x, y, cat(pre, []byte{0xc3}))
+				wsCase(k, x)
+				out.Stat("long:binary")
+			}
+			return
+		}
+		n := 8
+		if full {
+			n = len(stradAll)
+		} else if a.Thorough {
+			n = 48
+		}
+		if n >= len(stradAll) {
+			for _, s := range stradAll {
+				straddle(k, s.at, s.wd, s.phase, true)
+			}
+		} else {
+			// always the sizes a buffer pool / chunk is most likely to have, then a sample of the matrix
+			straddle(k, 64, 2, 1, true)
+			straddle(k, 128*(1+r.Intn(2)), 2+r.Intn(2), 1, false)
+			for i := 2; i < n; i++ {
+				s := stradAll[r.Intn(len(stradAll))]
+				straddle(k, s.at, s.wd, s.phase, i < 4)
+			}
+		}
+		// random long strings over the whole alphabet (all widths, ill-formed bytes), one rune changed at a random place
+		nl := 4
+		if a.Thorough {
+			nl = 40
+		}
+		al := alphabets[k.name]
+		for i := 0; i < nl; i++ {
+			var rs []rune
+			for n := 60 + r.Intn(260); n > 0; n-- {
+				rs = append(rs, hx.Pick(r, al.runes))
+			}
+			enc := func(rs []rune, bad int) []byte {
+				var s []byte
+				for i, c := range rs {
+					if i == bad {
+						s = append(s, hx.Pick(r, malformed)...)
+					}
+					s = utf8.AppendRune(s, c)
+				}
+				return s
+			}
+			bad := -1
+			if r.Chance(1, 6) {
+				bad = r.Intn(len(rs))
+			}
+			x := enc(rs, bad)
+			p := r.Intn(len(rs))
+			ys := append([]rune(nil), rs...)
+			ys[p] = hx.Pick(r, al.runes)
+			zs := append([]rune(nil), ys...)
+			// same-weight replacement at another place
+			q := r.Intn(len(rs))
+			for _, c := range al.runes {
+				if c != zs[q] && k.c.Sorter(c) == k.c.Sorter(zs[q]) {
+					zs[q] = c
+					break
+				}
+			}
+			out.Stat("long:random")
+			lawCase(k, x, enc(ys, bad), enc(zs, bad))
+			if i == 0 {
+				wsCase(k, x)
+			}
+		}
+	}
+
 	// --- corpus ------------------------------------------------------------------------------
 	if k, ok := byName["utf8mb4_0900_ai_ci"]; ok {
 		lawCase(k, []byte("abc"), []byte("ABC"), []byte("\xc3\xa1bc"))
@@ -770,6 +1054,7 @@ func run(a hx.RunArgs) error {
 		likeCase(k, []byte("%"), []byte("\xff"), '\\')
 		wsCase(k, []byte("aA\xc3\xa9"))
 		sqlCase(k, []byte("abc"), []byte("ABC"))
+		sqlHashCase(k, []byte("abc"), []byte("ABC"), []byte("abd"))
 	}
 	if k, ok := byName["utf8mb4_bin"]; ok {
 		lawCase(k, []byte("a\xf0\x90\x80\x80"), []byte("a\xef\xbf\xbf"), []byte("b"))
@@ -817,6 +1102,7 @@ func run(a hx.RunArgs) error {
 				sweepCase(k, lo, lo+256)
 			}
 		}
+		longCases(k, full)
 		for i := 0; i < nTrip; i++ {
 			x := gen(k, nil)
 			y := gen(k, x)
